@@ -376,6 +376,11 @@ class Env:
         self.quick = tier == 'quick'
         self._driver = None
         self.t0 = time.time()
+        self.escalated = False
+        self.deadline = None     # wall-clock limit of an escalated failing-input search
+
+    def out_of_time(self):
+        return self.deadline is not None and time.time() > self.deadline
 
     @property
     def driver(self):
@@ -480,6 +485,30 @@ def run_check(pid, module, tier, seed, replay=None):
     finally:
         if env._driver:
             env._driver.close()
+    # 4b. a proof obligation or the correspondence broke and the quick streams found no input on which the
+    #     implementation breaks the property: widen the failing-input search to the thorough streams
+    #     (time-boxed) before reporting no-failing-input-found
+    escalated = None
+    if (not replay and tier == 'quick' and not os.environ.get('VERIF_NO_ESCALATE')
+            and (proof_problems or any(f['kind'] == 'correspondence' for f in res.findings))
+            and not any(f['kind'] == 'property' for f in res.findings)):
+        env2 = Env(pid, 'thorough', seed)
+        env2.escalated = True
+        env2.deadline = time.time() + float(os.environ.get('VERIF_ESCALATE_S', '420'))
+        res2 = Result()
+        try:
+            module.run(env2, res2)
+        except Infra:
+            pass
+        except Exception as e:  # the search is best effort
+            res2.extra['escalation_error'] = f'{type(e).__name__}: {e}'
+        finally:
+            if env2._driver:
+                env2._driver.close()
+        escalated = {'evaluations': res2.evaluations, 'rule': res2.rule,
+                     'property_findings': sum(1 for f in res2.findings if f['kind'] == 'property')}
+        res.findings += [f for f in res2.findings if f['kind'] == 'property']
+        res.extra['escalated_search'] = escalated
     # 5. decide
     known = load_known(pid)
     prop_findings = [f for f in res.findings if f['kind'] == 'property']
@@ -517,7 +546,7 @@ def run_check(pid, module, tier, seed, replay=None):
                 'correspondence': (f"model and implementation disagree on {len(corr_findings)} case(s) "
                                    f"of the {pid} correspondence" if corr_findings else None)},
             'first_diverging_case': first,
-            'searched': {'evaluations': res.evaluations, 'rule': res.rule}})
+            'searched': {'evaluations': res.evaluations, 'rule': res.rule, 'escalated': escalated}})
         print(f'VIOLATION property={pid} replay={path} no-failing-input-found')
         violations += 1
     # 6. evidence
